@@ -13,7 +13,7 @@ LEVEL = "exploration"
 PINS = VERIF / "pins" / "identifiers.json"
 
 ROOTS = ["leaf", "box", "ring", "job", "holder", "jobout"]
-SEEDS = ["ring1", "ring2", "ring3", "ring3mid", "ring-below", "ring-diamond", "box-meta", "box-shared", "job-up", "job-holder", "job-outpre", "job-ring"]
+SEEDS = ["ring1", "ring2", "ring3", "ring3mid", "ring-below", "ring-diamond", "box-meta", "box-shared", "job-up", "job-holder", "job-outpre", "job-upx", "job-ring"]
 
 
 def space(ctx, scale=1):
